@@ -85,7 +85,11 @@ def check_units(res, tier):
 
     def conv(a, b, v):
         res.executions += 1
-        return units.convert(a, b, v)
+        try:
+            return units.convert(a, b, v)
+        except Exception as e:  # noqa
+            res.violation("convert-raises", f"units.convert raised {type(e).__name__}: {e} for value {v!r}", dict(engine="inputs", kind="units", value=v))
+            return None
 
     # exact constants
     for (a, b, v, want) in [("meter", "centimeter", 1.0, 100.0), ("foot", "meter", 1.0, 0.3048), ("foot", "inch", 1.0, 12.0), ("centimeter", "meter", 100.0, 1.0), ("inch", "foot", 12.0, 1.0)]:
@@ -202,7 +206,7 @@ def check_pressure(res, tier):
                     break
         res.outcome(f"pressure:vcc={vcc}")
     # calibrate / voltage histories
-    volts = [0.5, 2.0, 4.5]
+    volts = [0.5, 2.0, 4.5, 0.0, -1.0]
     press = [0.0, 50.0, 120.0]
     ops = [("v", x) for x in volts] + [("cal", p) for p in press]
     depth = 4 if tier == "quick" else 5
@@ -235,7 +239,7 @@ def check_pressure(res, tier):
                         if not (abs(got - cal_p) <= 1e-9 * max(1.0, abs(cal_p))):
                             res.violation(f"calibration:{'first' if ncal == 1 else 'repeated'}", f"Vcc={vcc}: history {list(seq)}: reads {got!r} at the calibration voltage, calibrated to {cal_p!r}", rp)
                             break
-                    elif cal_v is None:
+                    elif cal_v is None and s.sensor.v > 0:
                         want = 250 * s.sensor.v / vcc - 25
                         if not close(got, want, 4):
                             res.violation("pressure-formula", f"history {list(seq)}: {got!r}, expected {want!r}", rp)
